@@ -1,6 +1,6 @@
 (** extraction of the C07 model: specifications (IoSpec) and as-is models (IoModel) *)
 Require Import FastZ.
-From Dashu Require Import Base.Prelude Int.IoSpec Int.IoModel Int.IoBytesBEModel Int.IoDebugModel Int.IoFmt3Model Int.IoBigModel Int.IoWriter Int.IoChunksW.
+From Dashu Require Import Base.Prelude Int.IoSpec Int.IoModel Int.IoBytesBEModel Int.IoDebugModel Int.IoFmt3Model Int.IoBigModel Int.IoWriter Int.IoChunksW Int.IoToChunksModel Int.IoDebugLwbModel Int.IoDispatch4Model.
 From DashuGen Require Import IoTables3.
 Extraction "model.ml"
   digits_spec digits_value digit_char radix_valid
@@ -12,4 +12,5 @@ Extraction "model.ml"
   to_be_bytes_asis to_signed_be_bytes_asis from_be_bytes_asis from_signed_be_bytes_asis
   to_chunks_spec from_chunks_spec chunk_count to_chunks_asis to_chunks_before_fix from_chunks_asis
   debug_spec debug_asis gen_dbg_lits ilog_exact fmt_tables_asis fmt_words_asis body_words_asis
-  dw_text trait_id trait_lookup gen_fmt_traits case_offset inradix_case from_chunks_words_z.
+  dw_text trait_id trait_lookup gen_fmt_traits case_offset inradix_case from_chunks_words_z
+  to_chunks_words_z debug_lwb_asis est_under digits_gen body_gen.
